@@ -328,9 +328,11 @@ untagged enum); skipped unknown fields are consumed iteratively, without the lim
 def recursionLimit : Nat := 127
 
 /-- `#[serde(untagged)] enum BodyFilter { Text(..), HTML(..) }`: buffer the value, try `Text`,
-then `HTML`, else "data did not match any variant".  `base` = number of enclosing containers. -/
+then `HTML`, else "data did not match any variant".  `base` = number of enclosing containers.
+Buffering *reads* every token of the value, also those under unknown keys: a skippable-only token
+(`junk`) anywhere inside is an error. -/
 def deBodyFilter (base : Nat) (j : Json) : Option BodyFilter :=
-  if base + depth j > recursionLimit then none
+  if hasJunk j || base + depth j > recursionLimit then none
   else
     match deTextBodyFilter j with
     | some t => some (.text t)
